@@ -1,8 +1,14 @@
 use std::cell::RefCell;
 use std::collections::HashMap;
+#[cfg(not(feature = "verif"))]
 use std::net;
+#[cfg(feature = "verif")]
+use crate::verif::net;
 use std::rc::Rc;
+#[cfg(not(feature = "verif"))]
 use std::time;
+#[cfg(feature = "verif")]
+use crate::verif::time;
 
 use crate::EndpointConfig;
 use crate::frame::serial::Serialize;
@@ -300,7 +306,10 @@ impl Server {
 
         // Handshake appears valid, send reply
 
+        #[cfg(not(feature = "verif"))]
         let local_nonce = rand::random::<u32>();
+        #[cfg(feature = "verif")]
+        let local_nonce = crate::verif::rng::random_u32();
 
         let reply = frame::Frame::HandshakeSynAckFrame(frame::HandshakeSynAckFrame {
             nonce_ack: handshake.nonce,
@@ -752,3 +761,4 @@ impl Server {
         }
     }
 }
+
